@@ -579,6 +579,8 @@ pub fn run(which: Which, tier: &str, seed: u64, out: &str) {
                 .set("moves_in_checked_lists", tq.1)
                 .set("node_cap_per_start_state", tq.4)
                 .set("nodes_whose_searched_moves_were_judged", EXAMINED_NODES.load(std::sync::atomic::Ordering::Relaxed))
+                .set("quiescence_searches_traced_after_a_main_search_of_the_same_state", AFTER_SEARCH.load(std::sync::atomic::Ordering::Relaxed))
+                .set("quiescence_searches_traced_with_a_game_history_in_which_every_successor_occurred_twice", WITH_HISTORY.load(std::sync::atomic::Ordering::Relaxed))
                 .set("explanation", "from every state within the listed plies of the roots the real search_until_quiet runs (full window, node-capped) with the trace hook on; at every node it reaches, the move list it is about to iterate must equal every legal move (in check) or the tactical set (not in check), and its own in-check flag must agree with the rules; the examine/exit events say which of those moves the node really searched: all of them if it ran to the end of its loop, a subset if it was cut off (beta, clock), none if it stood pat or was mated"),
         );
     }
@@ -693,6 +695,55 @@ fn trace_part(mg: &MoveGenerator, rep: &Report, roots: &[roots::Root], thorough:
             if s.is_none() {
                 *s = Some(Searcher::new());
             }
+            // phase 0: quiescence from this state as it is; phase 1: the same after a main search of
+            // the state on the same searcher (table, killers and history filled by it): what an
+            // earlier search left behind must not change which moves a quiescence node searches
+            for phase in 0..3 {
+            if phase == 2 {
+                if rep.saturated() {
+                    return;
+                }
+                // a game history in which every position one move away has already occurred twice:
+                // the rule for repeated positions belongs to the main search; which moves a
+                // quiescence node searches does not depend on the game so far
+                let pre = guard(|| {
+                    let mut f = Searcher::new();
+                    for m in mg.generate_moves(b) {
+                        let c = b.clone_with_move(&m);
+                        f.push_position(&c);
+                        f.push_position(&c);
+                    }
+                    f
+                });
+                match pre {
+                    Ok(f) => *s = Some(f),
+                    Err(_) => {
+                        *s = None;
+                        return;
+                    }
+                }
+                WITH_HISTORY.fetch_add(1, std::sync::atomic::Ordering::Relaxed);
+            }
+            if phase == 1 {
+                if rep.saturated() {
+                    return;
+                }
+                // a fresh searcher, so that the case is exactly: main search of b, quiescence of b
+                crate::timer::verif::set_node_clock(Some(1));
+                let pre = guard(|| {
+                    let mut f = Searcher::new();
+                    f.find_best_move(b, 2, Some(Duration::from_millis(2500)));
+                    f
+                });
+                match pre {
+                    Ok(f) => *s = Some(f),
+                    Err(_) => {
+                        *s = None;
+                        return;
+                    }
+                }
+                AFTER_SEARCH.fetch_add(1, std::sync::atomic::Ordering::Relaxed);
+            }
             crate::timer::verif::set_node_clock(Some(1));
             crate::search::verif::set_quiescence_trace(true);
             let r = guard(|| s.as_mut().unwrap().verif_quiesce(b, Some(Duration::from_millis(cap))));
@@ -708,7 +759,7 @@ fn trace_part(mg: &MoveGenerator, rep: &Report, roots: &[roots::Root], thorough:
                     rep.violation(
                         format!("C17 start={} node={} examined", eng::fen_of(b), nf),
                         format!("quiescence search from {:?}, node {:?}: {}", eng::fen_of(b), nf, text),
-                        vec!["c17-exam-one".to_string(), "--fen".into(), eng::fen_of(b), "--node".into(), nf, "--cap".into(), cap.to_string()],
+                        vec!["c17-exam-one".to_string(), "--fen".into(), eng::fen_of(b), "--node".into(), nf, "--cap".into(), cap.to_string(), "--after-search".into(), phase.to_string()],
                         J::Null,
                     );
                 }
@@ -762,11 +813,18 @@ fn trace_part(mg: &MoveGenerator, rep: &Report, roots: &[roots::Root], thorough:
                     );
                 }
             }
+            }
         },
     );
     EXAMINED_NODES.store(exam_nodes.load(Ordering::Relaxed), Ordering::Relaxed);
     (nodes.load(Ordering::Relaxed), moves.load(Ordering::Relaxed), starts.len() as u64, checks.load(Ordering::Relaxed), cap)
 }
+
+/// Quiescence searches traced with a game history in which every successor occurred twice
+pub static WITH_HISTORY: std::sync::atomic::AtomicU64 = std::sync::atomic::AtomicU64::new(0);
+
+/// Quiescence searches traced after a main search of the same state on the same searcher
+pub static AFTER_SEARCH: std::sync::atomic::AtomicU64 = std::sync::atomic::AtomicU64::new(0);
 
 /// Nodes whose examined-move events were judged in the last trace_part run
 pub static EXAMINED_NODES: std::sync::atomic::AtomicU64 = std::sync::atomic::AtomicU64::new(0);
@@ -840,13 +898,27 @@ pub fn examined_problems(trace: &[(Board, bool, Vec<crate::moves::Move>)], event
     (judged, problems)
 }
 
-pub fn replay_exam_one(start_fen: &str, node_fen: &str, cap: u64) -> i32 {
+pub fn replay_exam_one(start_fen: &str, node_fen: &str, cap: u64, phase: u8) -> i32 {
+    let after_search = phase == 1;
     use crate::search::Searcher;
     let p = Pos::from_fen(start_fen).unwrap();
     let b = eng::board_of(&p).unwrap();
     crate::timer::verif::set_node_clock(Some(1));
-    crate::search::verif::set_quiescence_trace(true);
     let mut s = Searcher::new();
+    if after_search {
+        // as in the run: a main search of the state on a fresh searcher, then the traced quiescence
+        let _ = guard(|| s.find_best_move(&b, 2, Some(std::time::Duration::from_millis(2500))));
+        crate::timer::verif::set_node_clock(Some(1));
+    }
+    if phase == 2 {
+        let mg = MoveGenerator::new();
+        for m in mg.generate_moves(&b) {
+            let c = b.clone_with_move(&m);
+            s.push_position(&c);
+            s.push_position(&c);
+        }
+    }
+    crate::search::verif::set_quiescence_trace(true);
     let _ = guard(|| s.verif_quiesce(&b, Some(std::time::Duration::from_millis(cap))));
     let trace = crate::search::verif::take_quiescence_trace();
     let events = crate::search::verif::take_quiescence_events();
